@@ -44,6 +44,7 @@ type WorkerSummary struct {
 	Sentinels    []SentinelMismatch `json:"sentinel_mismatches,omitempty"`
 	SentinelsChecked int        `json:"sentinels_checked,omitempty"`
 	Cases        int            `json:"cases,omitempty"`
+	Sampled      int            `json:"sampled_cases,omitempty"`
 	Executions   int            `json:"executions,omitempty"`
 	Observable   int            `json:"observable,omitempty"`
 	DistinctObs  []uint64       `json:"distinct_obs,omitempty"`
@@ -231,6 +232,7 @@ func TestSim(t *testing.T) {
 					harness(err, fmt.Sprintf("seed %d", seed))
 				}
 				sum.Cases += es.Cases
+				sum.Sampled += es.Sampled
 				sum.Executions += es.Executions
 				sum.Unobservable += es.Unobservable
 				if es.MaxAfter > sum.MaxAfter {
@@ -326,6 +328,7 @@ func TestSim(t *testing.T) {
 			}
 		}
 		sum.Cases, sum.Executions, sum.Observable, sum.Unobservable, sum.MaxAfter = es.Cases, es.Executions, es.Observable, es.Unobservable, es.MaxAfter
+		sum.Sampled = es.Sampled
 		finish()
 
 	case "replay":
